@@ -1,5 +1,7 @@
 import FinProtoc.Visit
 import FinProtoc.Generated.Facts
+import FinProtoc.Proofs.VisitDiag
+import FinProtoc.Dsl.Parser
 /-!
 # C12 — ill-formed DSL is rejected at the right line; well-formed DSL is accepted
 
@@ -11,10 +13,21 @@ differential `model` op: diagnostics lists and whole model dumps must agree):
   the offending (later) declaration, and leaves the model otherwise untouched;
 * a declaration that commits no offence yields no diagnostic.
 
-The classes the code does NOT check today (duplicate field, duplicate match key, unknown key
-field, unknown length target, unknown match target) have no theorem here; they are findings,
-see DESIGN §9 / KNOWN_FINDINGS.txt.  The all-programs lifting (`validate_sound/complete` against a
-declarative `WF`) is staged.
+Whole-run theorems (second half of this file, helper lemmas in `Proofs/VisitDiag.lean`) lift these facts through the
+loops of the visitor, for every concrete syntax tree `c`:
+
+* A `diags_monotone`, `diags_monotone_steps`, `model_monotone`: diagnostics (and packets, MetaData entries, options) are
+  only ever appended to;
+* B `dup_packet_run`, `second_root_run`, `dup_meta_run`, `unknown_option_run`, `bad_option_value_run`, `dup_option_run`:
+  the offence in the file ⇒ its diagnostic, at the line of the offending declaration, in `(Visit.run c).diags`;
+* C `dup_field_run`, `len_nonroot_run`: the same for a duplicate field and for a length field outside the root packet;
+* D `wf_accepted_partial` (a well-formed file of the flat fragment is accepted without diagnostics) and
+  `clean_run_sound` (a run without diagnostics has none of the offences of B and C).
+
+Not lifted yet: unknown packet type / key field / length target, duplicate `LengthOfField`, duplicate match key,
+length target before the length field, recursion (their diagnostics are modelled and compared with the real code by the
+differential `model` op); the acceptance theorem for files with length fields, packet-typed fields, inline objects and
+match fields (the full `WF` is spelled out at `wf_accepted_partial`).
 -/
 namespace FinProtoc.Props
 open FinProtoc FinProtoc.Visit
@@ -94,6 +107,462 @@ example : (addPacketS { name := "A", root := false, fields := [], line := 7 }
 /-- the documented pad-character spelling `'\x00'` (as the lexer delivers it: backslash, x, 0, 0) is an allowed value.
 On the pinned tree it was not (the table held a raw NUL only): a genuine defect, repaired by a `fix:` commit. -/
 theorem padchar_nul_accepted : (optionValues "FixedStringPadChar").map (·.contains "'\\x00'") = some true := by decide
+
+/-! # Whole runs: `Visit.run c` for every concrete syntax tree `c`
+
+The theorems above speak about one `AddPacket` / `AddMetaData` / `AddOption` on an arbitrary state.  The theorems below
+lift them through the loops of the visitor (`Proofs/VisitDiag.lean`): they speak about the diagnostics list of the whole
+run.  `Visit.run c = .ok s` always holds for some `s` (`visit_no_crash`, C11). -/
+
+open FinProtoc.Dsl
+
+/-! ## A. Diagnostics are only ever appended -/
+
+/-- the computation, if it returns, leaves the diagnostics issued so far in place and only appends to them -/
+def AppendsOnly (m : V α) : Prop :=
+  ∀ (s : VState) (a : α) (s' : VState), m s = .ok (a, s') → ∃ l, s'.diags = s.diags ++ l
+
+/-- the frame relation `Grow` of `Proofs/VisitDiag.lean` (every list of the state is only appended to) gives `AppendsOnly` -/
+theorem appendsOnly_of_grows {m : V α} (h : Grows m) : AppendsOnly m :=
+  fun s a s' e => (h.out s a s' e).diags
+
+/-- **A (steps).** Every step function of the visitor model only appends to the diagnostics: visiting a type, a field
+definition (inline objects included), a field with its attributes, the two loops and the length check of a packet
+definition, a whole packet definition, `resolveFields`, the recursion check, `ResolveDependencies`, and at the top level
+one MetaData entry, one option, one packet (visit + `AddPacket`). -/
+theorem diags_monotone_steps :
+    (∀ ty n, AppendsOnly (tyAttr ty n)) ∧ (∀ fd, AppendsOnly (visitFieldDef fd)) ∧ (∀ f, AppendsOnly (visitFieldWA f)) ∧
+    (∀ r n acc f, AppendsOnly (pktStep1 r n acc f)) ∧ (∀ fs ls fm lf, AppendsOnly (pktLenCheck fs ls fm lf)) ∧
+    (∀ lf fm ls fs i, AppendsOnly (pktStep2 lf fm ls fs i)) ∧ (∀ p, AppendsOnly (visitPacketDef p)) ∧
+    (∀ n fs, AppendsOnly (resolveFields n fs)) ∧ AppendsOnly checkRecursion ∧ AppendsOnly resolveDeps ∧
+    (∀ e, AppendsOnly (metaEntryStep e)) ∧ (∀ od, AppendsOnly (optDeclStep od)) ∧ (∀ d, AppendsOnly (packetStep d)) :=
+  ⟨fun _ _ => appendsOnly_of_grows (tyAttr_frames ..).grows, fun _ => appendsOnly_of_grows (visitFieldDef_frames _).grows,
+   fun _ => appendsOnly_of_grows (visitFieldWA_frames _).grows, fun _ _ _ _ => appendsOnly_of_grows (pktStep1_frames ..).grows,
+   fun _ _ _ _ => appendsOnly_of_grows (pktLenCheck_frames ..).grows, fun _ _ _ _ _ => appendsOnly_of_grows (pktStep2_frames ..).grows,
+   fun _ => appendsOnly_of_grows (visitPacketDef_frames _).grows, fun _ _ => appendsOnly_of_grows (resolveFields_frames ..).grows,
+   appendsOnly_of_grows checkRecursion_frames.grows, appendsOnly_of_grows resolveDeps_frames.grows,
+   fun _ => appendsOnly_of_grows (metaEntryStep_grows _), fun _ => appendsOnly_of_grows (optDeclStep_grows _),
+   fun _ => appendsOnly_of_grows (packetStep_grows _)⟩
+
+/-- **A.** `VisitPacket` as a whole, started in any state: the diagnostics present at the start are a prefix of the
+diagnostics at the end.  A diagnostic, once issued, is never retracted or reordered. -/
+theorem diags_monotone (c : Cst) : AppendsOnly (visitCst c) := appendsOnly_of_grows (visitCst_grows c)
+
+/-- the same for the other lists of the model: packets, MetaData entries and options are only appended to, and the root
+packet, once set, is never replaced -/
+theorem model_monotone (c : Cst) (s s' : VState) (h : visitCst c s = .ok (⟨⟩, s')) :
+    (∃ l, s'.packets = s.packets ++ l) ∧ (∃ l, s'.metas = s.metas ++ l) ∧ (∃ l, s'.options = s.options ++ l) ∧
+      (s.root.isSome = true → s'.root = s.root) :=
+  have g := (visitCst_grows c).out s ⟨⟩ s' h
+  ⟨g.packets, g.metas, g.options, g.root⟩
+
+/-! ## B. Offence ⇒ diagnostic at the line of the offending declaration, whole run -/
+
+/-- **B, duplicate packet.** If the file defines a packet `p` and, later, a packet `q` with the same name, the run reports
+`Duplicate packet definition for <name>` at the first line of `q` (its `root` keyword if it has one, else `packet`). -/
+theorem dup_packet_run (c : Cst) (p q : PacketDef) (s : VState)
+    (hb : Before c.defs (.packet p) (.packet q)) (hn : p.name.text = q.name.text) (hr : Visit.run c = .ok s) :
+    (q.start.line, "Duplicate packet definition for " ++ q.name.text) ∈ s.diags := by
+  obtain ⟨l1, l2, l3, hc⟩ := hb
+  refine diag_of_phase3 ?_ hr
+  intro s2 _ _
+  rw [hc]
+  refine forM_offence2 packetStep_grows (fun s => hasPk s q.name.text) (fun _ _ hg h => hasPk_grow hg h)
+    _ _ l1 l2 l3 _ (fun _ => True) (fun _ => True) s2 (wlp_true _ _) ?_ (wlp_true _ _) ?_
+  · intro s _
+    rw [← hn]; exact packetStep_registers p s
+  · intro s h _
+    exact packetStep_dup q s h
+
+/-- **B, second root packet.** If the file defines a root packet `p` and, later, a root packet `q`, and neither repeats
+the name of a packet defined before it, the run reports `Multiple root packets are not allowed` at the first line of `q`. -/
+theorem second_root_run (c : Cst) (p q : PacketDef) (l1 l2 l3 : List TopDef) (s : VState)
+    (hc : c.defs = l1 ++ .packet p :: (l2 ++ .packet q :: l3))
+    (hp : p.root.isSome = true) (hq : q.root.isSome = true)
+    (hpn : p.name.text ∉ packetNames l1) (hqn : q.name.text ∉ packetNames (l1 ++ .packet p :: l2))
+    (hr : Visit.run c = .ok s) :
+    (q.start.line, "Multiple root packets are not allowed") ∈ s.diags := by
+  refine diag_of_phase3 ?_ hr
+  intro s2 hn2 _
+  rw [hc]
+  refine forM_offence2 packetStep_grows (fun s => s.root.isSome = true) ?_
+    _ _ l1 l2 l3 _ (PkFrom l1) (PkFrom (l1 ++ .packet p :: l2)) s2 (packetLoop_pkFrom _ s2 hn2.1) ?_
+    (packetLoop_pkFrom _ s2 hn2.1) ?_
+  · intro s s' hg h
+    rw [hg.root h]; exact h
+  · intro s h
+    exact packetStep_root p s hp (not_hasPk_of_pkFrom h (fun r hr e => hpn (e ▸ mem_packetNames hr)))
+  · intro s h1 h2
+    exact packetStep_secondRoot q s hq (not_hasPk_of_pkFrom h2 (fun r hr e => hqn (e ▸ mem_packetNames hr))) h1
+
+/-- **B, duplicate MetaData entry.** If a MetaData declaration `d1` stands before a MetaData declaration `d2` with the same
+name (in the same or in a later `MetaData` block), the run reports `Duplicate metadata definition for <name>` at the line
+of `d2` (the line of its type). -/
+theorem dup_meta_run (c : Cst) (d1 d2 : MetaDecl) (s : VState)
+    (hb : Before (metaEntries c) (.decl d1) (.decl d2)) (hn : d1.name.text = d2.name.text) (hr : Visit.run c = .ok s) :
+    (d2.ty.start.line, "Duplicate metadata definition for " ++ d2.name.text) ∈ s.diags := by
+  obtain ⟨l1, l2, l3, hc⟩ := hb
+  refine diag_of_phase1 ?_ hr
+  rw [metaLoop_eq]
+  unfold metaEntries at hc
+  rw [hc]
+  refine forM_offence2 metaEntryStep_grows (fun s => (findMeta s d2.name.text).isSome = true)
+    (fun _ _ hg h => findMeta_grow hg h) _ _ l1 l2 l3 _ (fun _ => True) (fun _ => True) _ (wlp_true _ _) ?_ (wlp_true _ _) ?_
+  · intro s _
+    rw [← hn]; exact metaDecl_registers d1 s
+  · intro s h _
+    exact metaDecl_dup d2 s h
+
+/-- **B, unknown option.** An option declaration whose name is not one of the eight documented option names is reported
+at its line, with the list of the documented names. -/
+theorem unknown_option_run (c : Cst) (od : OptDecl) (s : VState) (hm : od ∈ optDecls c)
+    (hu : od.name.text ∉ optionNames) (hr : Visit.run c = .ok s) :
+    (od.name.line, "Option " ++ od.name.text ++ " is not allowed in this context, Expected one of:" ++
+      ",".intercalate optionNames) ∈ s.diags := by
+  obtain ⟨l1, l2, hc⟩ := List.append_of_mem hm
+  refine diag_of_phase2 ?_ hr
+  intro s1
+  rw [optLoop_eq]
+  unfold optDecls at hc
+  rw [hc]
+  exact forM_offence1 optDeclStep_grows od l1 l2 _ (fun _ => True) s1 (wlp_true _ _)
+    (fun s _ => optDecl_unknown od s (optionValues_none hu))
+
+/-- **B, illegal option value.** An option declaration of a documented option with a closed list of values (`vals`, not
+empty) whose value is not in the list is reported at its line, naming option, value and the allowed values.
+`optValueOf od` is the value as written (a string literal without its quotes). -/
+theorem bad_option_value_run (c : Cst) (od : OptDecl) (vals : List String) (s : VState) (hm : od ∈ optDecls c)
+    (hv : optionValues od.name.text = some vals) (hne : vals ≠ []) (hbad : optValueOf od ∉ vals)
+    (hr : Visit.run c = .ok s) :
+    (od.name.line, "Option " ++ od.name.text ++ " is not allowed to be " ++ optValueOf od ++ ", Expected one of:" ++
+      ",".intercalate vals) ∈ s.diags := by
+  obtain ⟨l1, l2, hc⟩ := List.append_of_mem hm
+  refine diag_of_phase2 ?_ hr
+  intro s1
+  rw [optLoop_eq]
+  unfold optDecls at hc
+  rw [hc]
+  refine forM_offence1 optDeclStep_grows od l1 l2 _ (fun _ => True) s1 (wlp_true _ _)
+    (fun s _ => optDecl_badValue od vals s hv ?_ ?_)
+  · cases vals with
+    | nil => exact absurd rfl hne
+    | cons _ _ => rfl
+  · simpa using hbad
+
+/-- **B, duplicate option.** If a documented option is declared and, later (in the same or in a later `options` block),
+declared again, the run reports `Option <name> is already defined` at the line of the later declaration. -/
+theorem dup_option_run (c : Cst) (o1 o2 : OptDecl) (s : VState)
+    (hb : Before (optDecls c) o1 o2) (hn : o1.name.text = o2.name.text) (hk : o2.name.text ∈ optionNames)
+    (hr : Visit.run c = .ok s) :
+    (o2.name.line, "Option " ++ o2.name.text ++ " is already defined") ∈ s.diags := by
+  obtain ⟨l1, l2, l3, hc⟩ := hb
+  have hv : ∃ vals, optionValues o2.name.text = some vals := by
+    cases h : optionValues o2.name.text with
+    | some v => exact ⟨v, rfl⟩
+    | none =>
+      exfalso
+      revert h
+      simp only [optionNames, List.mem_cons, List.not_mem_nil, or_false] at hk
+      rcases hk with hk | hk | hk | hk | hk | hk | hk | hk <;> rw [hk] <;> decide
+  obtain ⟨vals, hv⟩ := hv
+  refine diag_of_phase2 ?_ hr
+  intro s1
+  rw [optLoop_eq]
+  unfold optDecls at hc
+  rw [hc]
+  refine forM_offence2 optDeclStep_grows (fun s => (s.options.lookup o2.name.text).isSome = true)
+    (fun _ _ hg h => lookup_grow hg h) _ _ l1 l2 l3 _ (fun _ => True) (fun _ => True) _ (wlp_true _ _) ?_ (wlp_true _ _) ?_
+  · intro s _
+    have := optDecl_registers o1 vals s (by rw [hn]; exact hv)
+    rw [hn] at this; exact this
+  · intro s h _
+    exact optDecl_dup o2 vals s hv h
+
+/-! ## C. Field-level offences, whole run
+
+`fieldName fd` is the name the field gets (for `Type name` / `Type` object fields: the name, else the type);
+`isLenSyn f` says that `f` ends up as a length field: a declaration `[type] name @lengthOf(target)`, or a prefix
+`@lengthOf(..)` attribute not followed by a prefix `@calculatedFrom(..)`. -/
+
+/-- **C, duplicate field.** If a packet `p` of the file declares a field `f1` and, later, a field `f2` with the same name,
+neither of them a length field, the run reports `Duplicate field definition for <field> in packet <p>` at the first line
+of `f2` (its first attribute if it has one). -/
+theorem dup_field_run (c : Cst) (p : PacketDef) (f1 f2 : FieldWA) (s : VState) (hp : TopDef.packet p ∈ c.defs)
+    (hb : Before p.fields f1 f2) (hn : fieldName f1.fd = fieldName f2.fd)
+    (h1 : isLenSyn f1 = false) (h2 : isLenSyn f2 = false) (hr : Visit.run c = .ok s) :
+    (f2.start.line, "Duplicate field definition for " ++ fieldName f2.fd ++ " in packet " ++ p.name.text) ∈ s.diags := by
+  obtain ⟨l1, l2, l3, hc⟩ := hb
+  refine diag_of_packet p hp ?_ hr
+  intro s0 hi
+  rw [hc]
+  refine foldlM_offence2 Inv (fun b x s h => pktStep1_inv _ _ b x s h) (fun acc => hasField acc (fieldName f2.fd))
+    (fun b x s _ hf => pktStep1_hasField _ _ _ b x s hf) f1 f2 l1 l2 l3 _ _ s0 hi ?_ ?_
+  · intro b s h
+    rw [← hn]; exact pktStep1_registers _ _ b f1 s h h1
+  · intro b s h hf
+    exact pktStep1_dup _ _ b f2 s h h2 hf
+
+/-- **C, length field outside the root packet.** A length field `f` of a packet that is not declared `root` is reported
+with `LengthOfField can only be declared in the root packet` at the first line of `f`. -/
+theorem len_nonroot_run (c : Cst) (p : PacketDef) (f : FieldWA) (s : VState) (hp : TopDef.packet p ∈ c.defs)
+    (hroot : p.root = none) (hf : f ∈ p.fields) (hl : isLenSyn f = true) (hr : Visit.run c = .ok s) :
+    (f.start.line, "LengthOfField can only be declared in the root packet") ∈ s.diags := by
+  obtain ⟨l1, l2, hc⟩ := List.append_of_mem hf
+  refine diag_of_packet p hp ?_ hr
+  intro s0 hi
+  rw [hc, hroot]
+  exact foldlM_offence1 Inv (fun b x s h => pktStep1_inv _ _ b x s h) f l1 l2 _ (fun _ => True) _ s0 hi (wlp_true _ _)
+    (fun b s h _ => pktStep1_lenNonRoot _ b f s h hl)
+
+/-! ### Non-vacuity of A and B
+
+Small concrete syntax trees (built by hand, the way the parser builds them) on which the hypotheses hold; the theorem is
+applied, and the kernel evaluates the run to show the diagnostics list that really comes out.  The same programs as text,
+through lexer and parser, follow. -/
+
+private def tk (k : TK) (s : String) (l : Nat) : Tok := { kind := k, text := s, line := l, col := 0 }
+
+/-- `u8 <name>,` -/
+private def fU8 (name : String) (l : Nat) : FieldWA :=
+  { attrs := [], fd := .metaF none { ty := .basic (tk .uint8 "u8" l), name := tk .ident name l, doc := none, comma := tk .comma "," l } }
+
+/-- `[root] packet <name> {` at line `l`, the fields, `}` -/
+private def pkD (root : Bool) (name : String) (l : Nat) (fields : List FieldWA) : PacketDef :=
+  { root := if root then some (tk .root "root" l) else none, kw := tk .packet "packet" l, name := tk .ident name l,
+    lb := tk .lbrace "{" l, fields := fields, rb := tk .rbrace "}" (l + fields.length + 1) }
+
+private def diagsOf (c : Cst) : List (Nat × String) :=
+  match Visit.run c with
+  | .ok s => s.diags
+  | .error _ => []
+
+private def diagsOfText (t : String) : Option (List (Nat × String)) := (parseFull t).map diagsOf
+
+/-- `packet A { u8 x, }  root packet A { u8 y, }` -/
+private def exDupPk : Cst := { defs := [.packet (pkD false "A" 1 [fU8 "x" 2]), .packet (pkD true "A" 4 [fU8 "y" 5])] }
+
+example (s : VState) (h : Visit.run exDupPk = .ok s) :
+    ((pkD true "A" 4 [fU8 "y" 5]).start.line, "Duplicate packet definition for " ++ (pkD true "A" 4 [fU8 "y" 5]).name.text) ∈ s.diags :=
+  dup_packet_run exDupPk _ _ s ⟨[], [], [], rfl⟩ rfl h
+
+example : diagsOf exDupPk = [(4, "Duplicate packet definition for A")] := by decide +kernel
+example : diagsOfText "packet A {\n u8 x,\n}\nroot packet A {\n u8 y,\n}\n" = some [(4, "Duplicate packet definition for A")] := by
+  decide +kernel
+
+/-- `root packet A { u8 x, }  root packet B { u8 y, }` -/
+private def exTwoRoots : Cst := { defs := [.packet (pkD true "A" 1 [fU8 "x" 2]), .packet (pkD true "B" 4 [fU8 "y" 5])] }
+
+example (s : VState) (h : Visit.run exTwoRoots = .ok s) :
+    ((pkD true "B" 4 [fU8 "y" 5]).start.line, "Multiple root packets are not allowed") ∈ s.diags :=
+  second_root_run exTwoRoots _ _ [] [] [] s rfl rfl rfl (by decide) (by decide) h
+
+example : diagsOf exTwoRoots = [(4, "Multiple root packets are not allowed")] := by decide +kernel
+example : diagsOfText "root packet A {\n u8 x,\n}\nroot packet B {\n u8 y,\n}\n" = some [(4, "Multiple root packets are not allowed")] := by
+  decide +kernel
+
+private def mdU (ty : TK) (tyText name : String) (l : Nat) : MetaDecl :=
+  { ty := .basic (tk ty tyText l), name := tk .ident name l, doc := none, comma := tk .comma "," l }
+
+/-- `MetaData M { u8 x, u16 x, }` -/
+private def exDupMeta : Cst :=
+  { defs := [.metaD { kw := tk .metadata "MetaData" 1, name := tk .ident "M" 1, lb := tk .lbrace "{" 1,
+                      entries := [.decl (mdU .uint8 "u8" "x" 2), .decl (mdU .uint16 "u16" "x" 3)], rb := tk .rbrace "}" 4 }] }
+
+example (s : VState) (h : Visit.run exDupMeta = .ok s) :
+    ((mdU .uint16 "u16" "x" 3).ty.start.line, "Duplicate metadata definition for " ++ (mdU .uint16 "u16" "x" 3).name.text) ∈ s.diags :=
+  dup_meta_run exDupMeta _ _ s ⟨[], [], [], rfl⟩ rfl h
+
+example : diagsOf exDupMeta = [(3, "Duplicate metadata definition for x")] := by decide +kernel
+example : diagsOfText "MetaData M {\n u8 x,\n u16 x,\n}\n" = some [(3, "Duplicate metadata definition for x")] := by decide +kernel
+
+private def od (name : String) (v : Tok) (l : Nat) : OptDecl :=
+  { name := tk .ident name l, eq := tk .eq "=" l, value := .tok v, semi := some (tk .semi ";" l) }
+
+/-- `options { Foo = 1; LittleEndian = 1; GoPackage = "a"; GoPackage = "b"; }` -/
+private def exOpts : Cst :=
+  { defs := [.opt { kw := tk .kwOptions "options" 1, lb := tk .lbrace "{" 1,
+                    decls := [od "Foo" (tk .digits "1" 2) 2, od "LittleEndian" (tk .digits "1" 3) 3,
+                              od "GoPackage" (tk .string "\"a\"" 4) 4, od "GoPackage" (tk .string "\"b\"" 5) 5],
+                    rb := tk .rbrace "}" 6 }] }
+
+example (s : VState) (h : Visit.run exOpts = .ok s) :
+    (2, "Option " ++ "Foo" ++ " is not allowed in this context, Expected one of:" ++ ",".intercalate optionNames) ∈ s.diags :=
+  unknown_option_run exOpts (od "Foo" (tk .digits "1" 2) 2) s (by decide) (by decide) h
+
+example (s : VState) (h : Visit.run exOpts = .ok s) :
+    (3, "Option " ++ "LittleEndian" ++ " is not allowed to be " ++ optValueOf (od "LittleEndian" (tk .digits "1" 3) 3) ++
+        ", Expected one of:" ++ ",".intercalate ["true", "false"]) ∈ s.diags :=
+  bad_option_value_run exOpts (od "LittleEndian" (tk .digits "1" 3) 3) ["true", "false"] s (by decide) rfl (by decide) (by decide) h
+
+example (s : VState) (h : Visit.run exOpts = .ok s) : (5, "Option " ++ "GoPackage" ++ " is already defined") ∈ s.diags :=
+  dup_option_run exOpts (od "GoPackage" (tk .string "\"a\"" 4) 4) (od "GoPackage" (tk .string "\"b\"" 5) 5) s
+    ⟨[od "Foo" (tk .digits "1" 2) 2, od "LittleEndian" (tk .digits "1" 3) 3], [], [], rfl⟩ rfl (by decide) h
+
+/-- the three diagnostics, in the order of the declarations (A: nothing is retracted or reordered) -/
+example : diagsOf exOpts =
+    [(2, "Option Foo is not allowed in this context, Expected one of:ArrayPrefixLenType,FixedStringPadChar,FixedStringPadFromLeft,GoModule,GoPackage,JavaPackage,LittleEndian,StringPrefixLenType"),
+     (3, "Option LittleEndian is not allowed to be 1, Expected one of:true,false"),
+     (5, "Option GoPackage is already defined")] := by decide +kernel
+example : (diagsOfText "options {\n Foo = 1;\n LittleEndian = 1;\n GoPackage = \"a\";\n GoPackage = \"b\";\n}\n").map (·.map (·.1)) = some [2, 3, 5] := by
+  decide +kernel
+
+/-! ### Non-vacuity of C -/
+
+/-- `<ty> <name>,` -/
+private def fT (k : TK) (ty name : String) (l : Nat) : FieldWA :=
+  { attrs := [], fd := .metaF none { ty := .basic (tk k ty l), name := tk .ident name l, doc := none, comma := tk .comma "," l } }
+
+/-- `u16 <name> @lengthOf(<target>),` -/
+private def fLen (name target : String) (l : Nat) : FieldWA :=
+  { attrs := [], fd := .len { ty := some (.basic (tk .uint16 "u16" l)), name := tk .ident name l,
+                              attr := { kw := tk .lengthOf "@lengthOf(" l, from_ := tk .ident target l, rp := tk .rparen ")" l },
+                              doc := none, comma := tk .comma "," l } }
+
+/-- `packet A { u8 x, u16 x, }` -/
+private def exDupField : Cst := { defs := [.packet (pkD false "A" 1 [fU8 "x" 2, fT .uint16 "u16" "x" 3])] }
+
+example (s : VState) (h : Visit.run exDupField = .ok s) :
+    ((fT .uint16 "u16" "x" 3).start.line,
+      "Duplicate field definition for " ++ fieldName (fT .uint16 "u16" "x" 3).fd ++ " in packet " ++ (pkD false "A" 1 [fU8 "x" 2, fT .uint16 "u16" "x" 3]).name.text) ∈ s.diags :=
+  dup_field_run exDupField _ (fU8 "x" 2) _ s (List.mem_singleton.2 rfl) ⟨[], [], [], rfl⟩ rfl rfl rfl h
+
+example : diagsOf exDupField = [(3, "Duplicate field definition for x in packet A")] := by decide +kernel
+example : diagsOfText "packet A {\n u8 x,\n u16 x,\n}\n" = some [(3, "Duplicate field definition for x in packet A")] := by
+  decide +kernel
+
+/-- `packet A { u16 Len @lengthOf(Body), string Body, }` (not a root packet) -/
+private def exLenNonRoot : Cst := { defs := [.packet (pkD false "A" 1 [fLen "Len" "Body" 2, fT .string "string" "Body" 3])] }
+
+example (s : VState) (h : Visit.run exLenNonRoot = .ok s) :
+    ((fLen "Len" "Body" 2).start.line, "LengthOfField can only be declared in the root packet") ∈ s.diags :=
+  len_nonroot_run exLenNonRoot _ (fLen "Len" "Body" 2) s (List.mem_singleton.2 rfl) rfl (List.mem_cons_self ..) rfl h
+
+example : diagsOf exLenNonRoot = [(2, "LengthOfField can only be declared in the root packet")] := by decide +kernel
+example : diagsOfText "packet A {\n u16 Len @lengthOf(Body),\n string Body,\n}\n" =
+    some [(2, "LengthOfField can only be declared in the root packet")] := by decide +kernel
+
+/-! ## D. Well-formed files are accepted without diagnostics (flat fragment), and the converse for the proved classes -/
+
+/-- **D (partial: the flat fragment).**  A file of the flat fragment that is well formed (`WFFlat`, in
+`Proofs/VisitDiag.lean`: MetaData declarations with pairwise different names and `char[n]` lengths in range; documented
+options with allowed values, each set once; packets with pairwise different names, at most one of them `root`; per packet
+pairwise different field names, every MetaData type used is declared, a checksum field has a type or is named after a
+MetaData entry, padding attributes only on `char[n]` fields) is visited without a crash and **without any diagnostic**.
+
+The fragment EXCLUDES: `RefMetaData` entries, length fields (`@lengthOf`, declaration or prefix attribute), prefix
+`@calculatedFrom` attributes, fields whose type is a packet, inline objects and match fields.  The full statement, not
+proved here, is `WF c → ∃ s, Visit.run c = .ok s ∧ s.diags = []` with `WF` adding: a `RefMetaData` entry refers to an
+earlier entry; length fields only in the root packet, at most one, its target a field declared AFTER it; padding only on
+a field whose attribute is `char[n]` at that point; every packet type of an object field / match target is a declared
+packet; the key of a match field is a field of the same packet (of the same inline object); no duplicate match keys; no
+length field inside an inline object; and the packet references (object fields, match targets) are not cyclic. -/
+theorem wf_accepted_partial (c : Cst) (h : WFFlat c) : ∃ s, Visit.run c = .ok s ∧ s.diags = [] := by
+  obtain ⟨s, hs⟩ := Visit.run_ok c
+  exact ⟨s, hs, run_of_wlp (Q := fun s => s.diags = []) (visitCst_flat c h) hs⟩
+
+/-- **D, the other direction for the classes of B and C.**  A run without diagnostics means that none of the offences
+proved above is in the file: no packet, MetaData declaration, option or (non-length) field repeats an earlier name, every
+option is a documented one with an allowed value, and no packet other than a root packet has a length field. -/
+theorem clean_run_sound (c : Cst) (s : VState) (hr : Visit.run c = .ok s) (hd : s.diags = []) :
+    (∀ p q, Before c.defs (.packet p) (.packet q) → p.name.text ≠ q.name.text) ∧
+    (∀ d1 d2, Before (metaEntries c) (.decl d1) (.decl d2) → d1.name.text ≠ d2.name.text) ∧
+    (∀ od, od ∈ optDecls c → od.name.text ∈ optionNames) ∧
+    (∀ od vals, od ∈ optDecls c → optionValues od.name.text = some vals → vals ≠ [] → optValueOf od ∈ vals) ∧
+    (∀ o1 o2, Before (optDecls c) o1 o2 → o1.name.text ≠ o2.name.text) ∧
+    (∀ p f1 f2, TopDef.packet p ∈ c.defs → Before p.fields f1 f2 → isLenSyn f1 = false → isLenSyn f2 = false →
+      fieldName f1.fd ≠ fieldName f2.fd) ∧
+    (∀ p f, TopDef.packet p ∈ c.defs → p.root = none → f ∈ p.fields → isLenSyn f = false) := by
+  have no : ∀ d : Nat × String, d ∈ s.diags → False := by intro d h; rw [hd] at h; cases h
+  have hopt : ∀ od, od ∈ optDecls c → od.name.text ∈ optionNames := by
+    intro od hm
+    refine Classical.byContradiction fun hu => no _ (unknown_option_run c od s hm hu hr)
+  refine ⟨?_, ?_, hopt, ?_, ?_, ?_, ?_⟩
+  · intro p q hb hn; exact no _ (dup_packet_run c p q s hb hn hr)
+  · intro d1 d2 hb hn; exact no _ (dup_meta_run c d1 d2 s hb hn hr)
+  · intro od vals hm hv hne
+    refine Classical.byContradiction fun hbad => no _ (bad_option_value_run c od vals s hm hv hne hbad hr)
+  · intro o1 o2 hb hn
+    have hm : o2 ∈ optDecls c := by
+      obtain ⟨l1, l2, l3, e⟩ := hb
+      rw [e]; simp
+    exact no _ (dup_option_run c o1 o2 s hb hn (hopt o2 hm) hr)
+  · intro p f1 f2 hp hb h1 h2 hn; exact no _ (dup_field_run c p f1 f2 s hp hb hn h1 h2 hr)
+  · intro p f hp hroot hf
+    cases hl : isLenSyn f with
+    | false => rfl
+    | true => exact (no _ (len_nonroot_run c p f s hp hroot hf hl hr)).elim
+
+/-! ### Non-vacuity of D -/
+
+/-- `MetaData M { u16 MsgType, char[4] Code, }  options { LittleEndian = true; }
+root packet P { MsgType, @leftPad('0') char[6] Seq, string Name, u32 Crc @calculatedFrom("CRC32"), }  packet Q { u8 x, }` -/
+private def exFlat : Cst :=
+  { defs := [
+      .metaD { kw := tk .metadata "MetaData" 1, name := tk .ident "M" 1, lb := tk .lbrace "{" 1,
+               entries := [.decl (mdU .uint16 "u16" "MsgType" 2),
+                           .decl { ty := .fixed (tk .charLb "char[" 3) (tk .digits "4" 3) (tk .rbrack "]" 3), name := tk .ident "Code" 3,
+                                   doc := none, comma := tk .comma "," 3 }],
+               rb := tk .rbrace "}" 4 },
+      .opt { kw := tk .kwOptions "options" 5, lb := tk .lbrace "{" 5, decls := [od "LittleEndian" (tk .ident "true" 6) 6],
+             rb := tk .rbrace "}" 7 },
+      .packet (pkD true "P" 8 [
+        { attrs := [], fd := .obj none (tk .ident "MsgType" 9) none none (tk .comma "," 9) },
+        { attrs := [.pad (tk .padAttr "@leftPad" 10) (tk .lparen "(" 10) (some (tk .padChar "'0'" 10)) (tk .rparen ")" 10)],
+          fd := .metaF none { ty := .fixed (tk .charLb "char[" 10) (tk .digits "6" 10) (tk .rbrack "]" 10), name := tk .ident "Seq" 10,
+                              doc := none, comma := tk .comma "," 10 } },
+        fT .string "string" "Name" 11,
+        { attrs := [], fd := .cks { ty := some (.basic (tk .uint32 "u32" 12)), name := tk .ident "Crc" 12,
+                                    attr := { kw := tk .calcFrom "@calculatedFrom(" 12, from_ := tk .string "\"CRC32\"" 12, rp := tk .rparen ")" 12 },
+                                    doc := none, comma := tk .comma "," 12 } }]),
+      .packet (pkD false "Q" 14 [fU8 "x" 15])] }
+
+private theorem exFlat_wf : WFFlat exFlat := by
+  refine ⟨?_, by decide, ?_, by decide, by decide, by decide, ?_⟩
+  · intro e he
+    have e1 : metaEntries exFlat = [_, _] := rfl
+    rw [e1] at he
+    simp only [List.mem_cons, List.not_mem_nil, or_false] at he
+    rcases he with rfl | rfl
+    · exact ⟨_, rfl, trivial⟩
+    · exact ⟨_, rfl, (by decide : natOfDigits "4" ≤ 2 ^ 31 - 1)⟩
+  · intro o ho
+    have e1 : optDecls exFlat = [_] := rfl
+    rw [e1] at ho
+    simp only [List.mem_cons, List.not_mem_nil, or_false] at ho
+    subst ho
+    exact ⟨["true", "false"], rfl, .inr (by decide)⟩
+  · intro p hp
+    have e1 : exFlat.defs = [_, _, _, _] := rfl
+    rw [e1] at hp
+    simp only [List.mem_cons, List.not_mem_nil, or_false, reduceCtorEq, false_or, TopDef.packet.injEq] at hp
+    rcases hp with rfl | rfl
+    · refine ⟨?_, by decide⟩
+      intro f hf
+      change f ∈ [_, _, _, _] at hf
+      simp only [List.mem_cons, List.not_mem_nil, or_false] at hf
+      rcases hf with rfl | rfl | rfl | rfl
+      · exact ⟨(by decide : "MsgType" ∈ metaNames exFlat), fun a ha => by cases ha⟩
+      · refine ⟨(by decide : natOfDigits "6" ≤ 2 ^ 31 - 1), fun a ha => ?_⟩
+        have : a = _ := List.mem_singleton.1 ha
+        subst this
+        exact trivial
+      · exact ⟨trivial, fun a ha => by cases ha⟩
+      · exact ⟨.inl rfl, fun a ha => by cases ha⟩
+    · refine ⟨?_, by decide⟩
+      intro f hf
+      have : f = _ := List.mem_singleton.1 hf
+      subst this
+      exact ⟨trivial, fun a ha => by cases ha⟩
+
+example : ∃ s, Visit.run exFlat = .ok s ∧ s.diags = [] := wf_accepted_partial exFlat exFlat_wf
+
+/-- the run, evaluated by the kernel: no diagnostic, two packets, the root is `P` -/
+example : (match Visit.run exFlat with
+    | .ok s => s.diags.isEmpty && s.packets.length == 2 && s.root == some "P" && s.metas.length == 2 && s.options.length == 1
+    | .error _ => false) = true := by decide +kernel
+
+example : diagsOfText "MetaData M {\n u16 MsgType,\n char[4] Code,\n}\noptions {\n LittleEndian = true;\n}\nroot packet P {\n MsgType,\n @leftPad('0') char[6] Seq,\n string Name,\n u32 Crc @calculatedFrom(\"CRC32\"),\n}\npacket Q {\n u8 x,\n}\n" = some [] := by
+  decide +kernel
 
 /-! ## T1: the option table of the visitor model is the table of `model.go` as it stands now
 
